@@ -10,12 +10,15 @@ VARIABLES l, obs
 vars == <<l, obs>>
 
 Init == l = 1 /\ obs = ObsInit
+\* A violation is printed (one line, parsed by bin/check) and the fold goes on: the observer stays
+\* silent until the next "reset" record, where it starts afresh, so that one TLC run judges every
+\* run of a concatenated trace.
 Next == /\ l <= Len(Rec)
-        /\ obs' = ObsStep(obs, Rec[l])
+        /\ LET o2 == ObsStep(obs, Rec[l]) IN
+             /\ obs' = o2
+             /\ (obs.ok /\ ~o2.ok) => PrintT(<<"VIOLATION-AT", l, o2.prop, o2.why>>)
         /\ l' = l + 1
 Spec == Init /\ [][Next]_vars
-
-Inv == obs.ok \/ Print(<<"VIOLATION-AT", l - 1, obs.prop, obs.why>>, FALSE)
 
 Accepted == \/ TLCGet("stats").diameter - 1 = Len(Rec)
             \/ Print(<<"TRACE-NOT-CONSUMED", TLCGet("stats").diameter - 1, Len(Rec)>>, FALSE)
